@@ -161,6 +161,15 @@ pub fn candidates(seed: u64) -> Vec<Value> {
             }
         }
     }
+    // every partial model over FOUR variables (a universe larger than any of these formulas mentions), for is_sat_partial
+    let more = vec![json!([[-1]]), json!([[-1, 2], [-2]]), json!([[-2, -3], [1]]), json!([[-1, -2, -3]])];
+    for cnf in cnfs.iter().chain(more.iter()) {
+        for code in 0..81u32 {
+            let p: Vec<Value> = (0..4).map(|i| match (code / 3u32.pow(i)) % 3 { 0 => Value::Null, 1 => json!(true), _ => json!(false) }).collect();
+            let a: Vec<bool> = (0..4).map(|i| (code / 3u32.pow(i)) % 3 == 1).collect();
+            out.push(json!({"case": "cnf_eval", "cnf": cnf, "assignment": a, "partial": p}));
+        }
+    }
     for cnf in cnfs.iter() {
         for l in [1i64, -1, 2, -2, 3, -3] { out.push(json!({"case": "cnf_condition", "cnf": cnf, "lit": l, "nvars": 3})); }
         out.push(json!({"case": "cnf_wmc", "cnf": cnf, "weights": [[1, 1], [1, 1], [1, 1]]}));
